@@ -492,6 +492,9 @@ func checkC09(cx *Ctx, r *Report) {
 						r.Ok("R-ASSERT", w.FuncKey(fn)+":"+x.AssertedType.String(), w.InstrPos(x), "checked assertion")
 					}
 				case *ssa.Panic:
+					if c := x.Block().Comment; c == "yield-invalid" || strings.HasPrefix(c, "rangefunc.") {
+						continue // protocol checks go/ssa synthesises around a range-over-func loop; only a broken iterator reaches them
+					}
 					r.Fail("R-PANIC", w.FuncKey(fn)+":panic", w.InstrPos(x), "explicit panic on a request path")
 				case ssa.CallInstruction:
 					n := calleeName(x)
@@ -698,6 +701,13 @@ func (cx *Ctx) checkBCE(r *Report, scope map[*ssa.Function]bool) {
 				okProof, why = true, why2
 			} else {
 				why += "; " + why2
+			}
+		}
+		if !okProof {
+			if ok3, why3 := cx.bceLinearProof(s.node); ok3 {
+				okProof, why = true, why3
+			} else {
+				why += "; " + why3
 			}
 		}
 		okey := fmt.Sprintf("%s:%s", s.fn.Name.Name, types.ExprString(s.node.(ast.Expr)))
